@@ -81,6 +81,9 @@ pub fn render(c: &Circuit, r: &mut Prng) -> String {
                 // an attribute whose VALUE contains entries of its own: they are not attributes of the element
                 s.push_str(NESTED);
             }
+            if r.chance(1, 12) {
+                s.push_str("<entry/>");
+            }
             if let Some(l) = &t.label {
                 let l = cdata(l, r);
                 s.push_str(&format!("{}<entry><string>Label</string><string>{}</string></entry>", nl(r), l));
@@ -117,6 +120,10 @@ pub fn render(c: &Circuit, r: &mut Prng) -> String {
             }
             if r.chance(1, 10) {
                 entries.push(NESTED.to_string());
+            }
+            if r.chance(1, 10) {
+                // an entry without any element in it says nothing, and hides nothing behind it
+                entries.push((*r.pick(&["<entry/>", "<entry></entry>", "<entry> </entry>"])).to_string());
             }
             r.shuffle(&mut entries);
             for e in entries {
